@@ -187,7 +187,9 @@ class Rule(MethodWIGM):
                 #
                 low_vote = min(c.vote for c in C.hopeful())
                 low_candidates = [c for c in C.hopeful() if c.vote == low_vote]
-                if low_vote == V0 and self.defeat_batch == 'zero':
+                #  (batch only if enough hopeful candidates remain to fill the seats)
+                if low_vote == V0 and self.defeat_batch == 'zero' and \
+                   len(C.hopeful()) - len(low_candidates) >= E.seatsLeftToFill():
                     for c in low_candidates:
                         c.defeat(msg='Defeat batch(zero)')
                 else:
